@@ -212,6 +212,11 @@ class NumpyModel:
     def binop(self, ex, op, a, b, lineno, inplace=False):
         aa, ab = _is_arr(ex, a), _is_arr(ex, b)
         if not (aa or ab):
+            if op == "Pow" and isinstance(b, float) and b in (0.5, 1.5) and ex.num(a) is not None and not is_concrete(a):
+                # x ** 0.5 = sqrt(x),  x ** 1.5 = x * sqrt(x)   (real x >= 0)
+                t, k = ex.num(a)
+                t = z3.ToReal(t) if k == TInt else t
+                return SV(np_sqrt(t) if b == 0.5 else t * np_sqrt(t), TReal)
             return NotImplemented
         from .engine import PyRaise
 
@@ -804,6 +809,12 @@ class NumpyModel:
             any(isinstance(a, tuple) and any(_is_arr(ex, x) for x in a) for a in args)
         if not anyarr and getattr(ex.contract, "numpy", "opaque") != "precise":
             return NotImplemented  # array creation from scalars: the contract chooses the opaque or the precise model
+        if fn in ("sqrt", "exp", "log") and len(args) == 1 and not _is_arr(ex, args[0]) and ex.num(args[0]) is not None:
+            t, k = ex.num(args[0])
+            t = z3.ToReal(t) if k == TInt else t
+            f = {"exp": np_exp, "log": np_log, "sqrt": np_sqrt}[fn]
+            ex.assumed.add(f"numpy.{fn} on scalars: uninterpreted real function (only the axioms stated in the contract are used)")
+            return SV(f(t), TReal)
         if fn in ("zeros", "ones", "empty", "full") and args:
             shp = args[0]
             dims = shp if isinstance(shp, tuple) else (shp,)
